@@ -22,13 +22,9 @@ every `values[r].ravel()` has `prod trail` entries, a mask (when present) has on
 def WF (g : InMemGeff α) : Prop :=
   (∀ p ∈ g.nodeProps, p.WF g.nodeIds.length) ∧ (∀ p ∈ g.edgeProps, p.WF g.edgeIds.length)
 
-/-- the column names a property must produce: `name` when no trailing dimension differs from 1,
-`name_0 … name_{k-1}` when exactly one does (`k` = that dimension), none for higher rank -/
-def colNames (p : PropArr α) : List String :=
-  match squeezeTrail p.trail with
-  | [] => [p.name]
-  | [k] => (List.range' 0 k).map (subName p.name)
-  | _ => []
+/-! `colNames p` (defined next to the model, `GeffModel/Dataframe.lean`): the column names a property
+must produce — `name` when no trailing dimension differs from 1, `name_0 … name_{k-1}` when exactly
+one does (`k` = that dimension), none for higher rank. -/
 
 /-- no two sources (id columns, property columns) claim the same column name -/
 def NoCollision (g : InMemGeff α) : Prop :=
@@ -126,6 +122,12 @@ theorem aligned_specCells (p : PropArr α) (n j : Nat) (hwf : p.WF n) :
       | false => rfl
       | true => exact absurd (hflag.2 hb) hf
     rw [hcell, this]; rfl
+
+/-- the driver's collision flag (which the harness uses to classify the known finding) is the
+theorems' hypothesis -/
+theorem noCollisionB_iff (g : InMemGeff α) :
+    (noCollisionB ["id"] g.nodeProps = true ∧ noCollisionB ["source", "target"] g.edgeProps = true) ↔ NoCollision g := by
+  simp [noCollisionB, NoCollision]
 
 /-! ## Tie to the source: literal tables regenerated by translator T8a -/
 
